@@ -61,6 +61,15 @@ Qed.
 Example ex_internal_step :
   exists s s', step Fixed s (EvLoop ChStep 0) = Some s' /\ (measure s' < measure s)%nat.
 Proof.
-  exists (mkState [ex_a] true false false false 0 LTop 0 CNone []). eexists.
+  exists (mkState [ex_a] true false false false 0 LTop 0 CNone [] 0 0). eexists.
   split; [vm_compute; reflexivity | vm_compute; lia].
 Qed.
+
+(* two more Close calls while the first waits: all return once the loop is gone (hypotheses of
+   C06_close_every_call) *)
+Example ex_close_thrice :
+  option_map (fun s => (close s, cwait s, cret s, loop s, executed s))
+    (run Fixed init (ex_park ++ [EvCloseCAS; EvClose2; EvCloseStop; EvClose2; EvLoop ChStop 0; EvLoop ChStep 0;
+                                 EvCloseToken; EvDone; EvClose2Ret; EvCloseRet; EvClose2Ret]))
+  = Some (CReturned, 0%nat, 2%nat, LNone, []).
+Proof. vm_compute. reflexivity. Qed.
